@@ -3,7 +3,7 @@ ENTRY = dict(
     level="proof",
     level_text=("Lean 4: an executable small-step model of one host activity (task or sub-process) with its harness, "
                 "its boundary listeners (catch event + flow), the cancellation once, the activity's request counter and "
-                "cancel verdict, the order of the harness's two activation statements, parametric in six extracted facts (two more are hard-wired and asserted); every label is one atomic step and theorems quantify "
+                "cancel verdict, the order of the harness's two activation statements, parametric in seven extracted facts (two more are hard-wired and asserted); every label is one atomic step and theorems quantify "
                 "over all numbers / kinds of boundary events and ALL schedules (runs of any length). Proved: the exception "
                 "flow of a boundary event never continues twice and, once its event was matched, continues exactly once at "
                 "quiescence (under the cancellation once; kernel-checked witness of a listener stuck forever without it); "
@@ -20,8 +20,9 @@ ENTRY = dict(
                 "Tied to the code by replaying real engine runs through the model: hosts task / sub-process x 1..2 boundary "
                 "events of either kind x every interleaving of {deliver e1, deliver e2, answer} up to length 4 incl. "
                 "event-before-activation, repeats, events after completion, back-to-back batches (all interleavings of the "
-                "model's internal steps are explored and the engine's outcome must be one of them) and four enforced "
-                "schedules through verifhook points; the C10 reference predicate is evaluated on every recorded history."),
+                "model's internal steps are explored and the engine's outcome must be one of them) and five enforced "
+                "schedules through verifhook points (one parks the tracer so that the answer precedes the event while the relay's "
+                "trace send is held up); the C10 reference predicate is evaluated on every recorded history."),
     level_note=("partial: C10 as stated is FALSE of the code and so of the faithful model (C10_fails); what is proved is the "
                 "negation with witnesses plus the partial statements under their exact excluding hypotheses "
                 "(interrupting_partial, non_interrupting_partial, inert_partial, inert_no_reaction, host_requested_partial). "
@@ -41,8 +42,9 @@ ENTRY = dict(
           "{d1[,d2], a} of length <= 4 with at most one answer, P answered first or after the first delivery (event before "
           "activation); quick tier: all up to length 3, a third of length 4 for two boundary events; modes wait "
           "(quiescence before every action), nowait (actions after P back-to-back), nowaitall (P included: the event races "
-          "the activation), hold-forward / hold-listener / hold-catch / hold-activation (a goroutine of the engine parked at "
-          "tasktrace.process.forwarding / flow.action / catch.process_event / harness.before_next_action). Every Deliver / Do under a deadline. After "
+          "the activation), hold-forward / hold-listener / hold-catch / hold-activation / hold-tracer (a goroutine of the engine parked at "
+          "tasktrace.process.forwarding / flow.action / catch.process_event / harness.before_next_action / tracer.broadcast; "
+          "under hold-tracer the actions are sequential for the reference: answer, then events). Every Deliver / Do under a deadline. After "
           "the schedule every request on the normal and exception paths is answered and WaitUntilComplete is recorded. The "
           "driver keeps the SET of model states compatible with the recorded requests and cancel traces (closed under internal steps; at "
           "quiescence only states without enabled internal step) - an empty set or a different completion verdict is a "
